@@ -24,11 +24,11 @@ ENGINES = {
     "C03": ("eng_core", "proof"),
     "C04": ("eng_core", "other"),
     "C05": ("eng_core", "other"),
-    "C06": ("eng_core", "other"),
-    "C07": ("eng_core", "other"),
-    "C08": ("eng_core", "other"),
-    "C13": ("eng_core", "other"),
-    "C16": ("eng_core", "other"),
+    "C06": ("eng_core", "proof"),
+    "C07": ("eng_core", "proof"),
+    "C08": ("eng_core", "proof"),
+    "C13": ("eng_core", "proof"),
+    "C16": ("eng_core", "proof"),
 }
 
 
